@@ -504,11 +504,16 @@ class ConcatScenario(BaseScenario):
                         self.boundary(w, h, same=False, final=True)
             except Violation as vio:
                 if w.mixed:
+                    # one label holding two primitive types corrupts the shared array (C04 known finding); whatever an
+                    # oracle sees afterwards, in whichever check, derives from that and is attributed to C04
                     vio.discr["mixed_types"] = True
+                    vio.prop = "C04"
                 violation = {"prop": vio.prop, "tag": vio.tag, "detail": vio.detail, "discr": vio.discr, "event": sim.events}
                 sim.record("violation", vio.prop, vio.tag, vio.discr)
                 status = "violation" if vio.prop == self.prop else "foreign"
-            if w.suspect and status == "ok":
+            if w.suspect and status == "ok" and w.mixed:
+                sim.probe("exception_after_mixed_types")      # same attribution for unexpected exceptions
+            elif w.suspect and status == "ok":
                 status, suspect = "suspect", w.suspect
             stats = {"events": sim.events, "ops": len(executed), "faults": dict(sim.faults), "probes": dict(sim.probes), "oracle_evals": dict(sim.oracle_evals),
                      "trace_hash": rawgeoh5.sha(w.trace), "nontrivial": w.n_mut >= 3 and w.fault_after_mut >= 1, "states": sorted(w.states),
@@ -1137,7 +1142,12 @@ class ConcatScenario(BaseScenario):
             raise Violation(w.v("C04"), "table_holes", f"table {pg_name!r} lists holes {sorted(by_hole)} expected at least {sorted(holes_with)}", {})
         for h2 in by_hole:
             hm = w.groups[g]["holes"][h2]
-            members = hm["pgs"][pg_name]["members"] if pg_name in hm["pgs"] else [c for c in names[1:] if c in hm["data"]]
+            if pg_name not in hm["pgs"]:
+                # listed only because it owns data with the view's column names (in other tables): the view is keyed by
+                # data names, which data of such a hole it shows is not defined by the property -- not judged
+                w.sim.probe("table_lists_hole_without_group")
+                continue
+            members = hm["pgs"][pg_name]["members"]
             n = len(hm["data"][members[0]]["values"]) if members else 0
             for ci, col in enumerate(names[1:]):
                 got = [r[ci] for r in by_hole[h2]]
